@@ -65,6 +65,14 @@ func (d *captureDriver) waitResults(n int) int {
 	return d.nResults()
 }
 
+func (d *captureDriver) waitResultsFor(n int, dur time.Duration) int {
+	deadline := time.Now().Add(dur)
+	for d.nResults() < n && time.Now().Before(deadline) {
+		time.Sleep(200 * time.Microsecond)
+	}
+	return d.nResults()
+}
+
 // switch vectors --------------------------------------------------------------
 
 type soundCfg struct {
